@@ -234,10 +234,12 @@ def run(pid, tier, seed, replay, cfg, repo, env, scratch, t0):
         "violations": len(out_lines),
     }
     if not replay:
-        os.makedirs(os.path.join(VERIF, "evidence"), exist_ok=True)
-        tmp = os.path.join(VERIF, "evidence", pid + ".json.tmp")
+        # evidence describes /repo; runs against another tree (mutation tests) are kept apart
+        edir = os.path.join(VERIF, "evidence") if repo == "/repo" else os.path.join(VERIF, "replays", "evidence-other-tree")
+        os.makedirs(edir, exist_ok=True)
+        tmp = os.path.join(edir, pid + ".json.tmp")
         json.dump(evidence, open(tmp, "w"), indent=1, ensure_ascii=False)
-        os.replace(tmp, os.path.join(VERIF, "evidence", pid + ".json"))
+        os.replace(tmp, os.path.join(edir, pid + ".json"))
 
     if out_lines:
         for s in failed[:2]:
